@@ -444,6 +444,82 @@ def _rename_in(fn, mapping: Dict[str, str], include_params: bool = False):
         rec(st, mapping)
 
 
+def _callable_table(trees: Dict[str, ast.Module]) -> Dict[str, List[str]]:
+    """simple name -> positional parameter names (receiver dropped), for names that denote ONE signature in the whole package."""
+    sigs: Dict[str, List[List[str]]] = {}
+    for tree in trees.values():
+        for qn, fn in functions(tree):
+            if fn.args.vararg or fn.args.posonlyargs:
+                ps = None
+            else:
+                ps = [a.arg for a in fn.args.args]
+                decos = {(d.id if isinstance(d, ast.Name) else getattr(d, "attr", "")) for d in fn.decorator_list}
+                in_class = False
+                parts = qn.split(".")
+                if len(parts) >= 2:
+                    for c in ast.walk(tree):
+                        if isinstance(c, ast.ClassDef) and c.name == parts[-2] and fn in c.body:
+                            in_class = True
+                if in_class and "staticmethod" not in decos and ps:
+                    ps = ps[1:]
+            sigs.setdefault(fn.name, []).append(ps)
+            if len(qn.split(".")) == 2:
+                sigs.setdefault(qn, []).append(ps)  # Class.method, for calls spelled Class.method(...)
+        for c in ast.walk(tree):
+            if isinstance(c, ast.ClassDef):
+                # record classes (NamedTuple / dataclass without their own __init__ / __new__): the constructor takes the annotated fields in order
+                bases = {ast.unparse(b).split(".")[-1] for b in c.bases}
+                decos = {ast.unparse(d).split("(")[0].split(".")[-1] for d in c.decorator_list}
+                own_init = any(isinstance(m, _FUNC) and m.name in ("__init__", "__new__") for m in c.body)
+                if ("NamedTuple" in bases and len(bases) == 1 or ("dataclass" in decos and not c.bases)) and not own_init:
+                    fields = [m.target.id for m in c.body if isinstance(m, ast.AnnAssign) and isinstance(m.target, ast.Name)
+                              and "ClassVar" not in ast.unparse(m.annotation)]
+                    sigs.setdefault(c.name, []).append(fields)
+                else:
+                    sigs.setdefault(c.name, []).append(None)  # other constructors: left alone
+    return {k: v[0] for k, v in sigs.items() if len(v) == 1 and v[0] is not None}
+
+
+def call_keywords(trees: Dict[str, ast.Module]) -> Dict[str, List[str]]:
+    out: Dict[str, Set[str]] = {}
+    for tree in trees.values():
+        for n in ast.walk(tree):
+            if isinstance(n, ast.Call):
+                name = n.func.attr if isinstance(n.func, ast.Attribute) else (n.func.id if isinstance(n.func, ast.Name) else None)
+                if name:
+                    out.setdefault(name, set()).update(k.arg for k in n.keywords if k.arg)
+    return {k: sorted(v) for k, v in out.items() if v}
+
+
+def _positionalise(trees: Dict[str, ast.Module], ref_keywords: Dict[str, List[str]]) -> int:
+    """`f(a, q=b)` -> `f(a, b)` when q is f's next positional parameter and the reference tree never passes q= to f: keyword spelling of a positional
+    argument (same binding, same evaluation order because only a contiguous prefix is converted)."""
+    table_all = _callable_table(trees)
+    k = 0
+    for stem_, tree in trees.items():
+        table = dict(table_all)
+        table.update(_callable_table({stem_: tree}))  # what the module defines itself wins over a same-named definition elsewhere
+        for n in ast.walk(tree):
+            if not isinstance(n, ast.Call) or not n.keywords or any(isinstance(a, ast.Starred) for a in n.args):
+                continue
+            name = n.func.attr if isinstance(n.func, ast.Attribute) else (n.func.id if isinstance(n.func, ast.Name) else None)
+            ps = table.get(name)
+            if ps is None and isinstance(n.func, ast.Attribute) and isinstance(n.func.value, ast.Name):
+                ps = table.get(f"{n.func.value.id}.{n.func.attr}")
+            if ps is None:
+                continue
+            refk = set(ref_keywords.get(name, ()))
+            while n.keywords and len(n.args) < len(ps):
+                nxt = ps[len(n.args)]
+                kw = n.keywords[0]
+                if kw.arg != nxt or kw.arg in refk:
+                    break
+                n.args.append(kw.value)
+                del n.keywords[0]
+                k += 1
+    return k
+
+
 def _helper_expression(fn) -> Optional[ast.AST]:
     """The single expression a small function computes: `return e`, or guard returns `if c: return a` ... `return b` (-> a if c else b)."""
     body = [st for st in fn.body if not (isinstance(st, ast.Expr) and isinstance(st.value, ast.Constant))]
@@ -586,6 +662,180 @@ def _inline_new_helper_calls(tree: ast.Module, stem: str, ref: dict) -> int:
         else:
             for i, st in enumerate(caller.body):
                 caller.body[i] = I().visit(st)
+    return k
+
+
+def _inline_new_helper_statements(tree: ast.Module, stem: str, ref: dict) -> int:
+    """Extract-function undone at statement level.  A call to a function of this module that the reference tree does not have is replaced by the function's
+    body when the call is (a) the whole value of a `return` (every return of the body is then a return of the caller), (b) an expression statement and the
+    body never returns a value, (c) the whole right-hand side of an assignment and the body's only return is its last statement.  Parameters become
+    assignments `p = <argument>` placed first (the later passes fold them), names of the body that would clash with the caller's are made fresh."""
+    import copy
+    funcs = functions(tree)
+    known = {qn for qn, _ in funcs if f"{stem}:{qn}" in ref}
+    helpers = {}
+    for qn, fn in funcs:
+        parts = qn.split(".")
+        if qn in known or fn.decorator_list or fn.args.vararg or fn.args.kwarg or fn.args.kwonlyargs or fn.args.posonlyargs or len(parts) > 2:
+            continue
+        if len(parts) == 2 and not any(isinstance(c, ast.ClassDef) and c.name == parts[0] for c in tree.body):
+            continue
+        if any(isinstance(n, (ast.Yield, ast.YieldFrom, ast.Await, ast.Global, ast.Nonlocal)) for n in ast.walk(fn)):
+            continue
+        if any(isinstance(n, _FUNC + (ast.ClassDef,)) for n in ast.walk(fn) if n is not fn):
+            continue
+        if any(isinstance(n, ast.Call) and isinstance(n.func, ast.Name) and n.func.id == fn.name for n in ast.walk(fn)):
+            continue  # recursive
+        body = [st for st in fn.body if not (isinstance(st, ast.Expr) and isinstance(st.value, ast.Constant))]
+        if not body or len(body) > 40:
+            continue
+        rets = [n for n in ast.walk(fn) if isinstance(n, ast.Return)]
+        helpers[qn] = (fn, body, rets)
+    if not helpers:
+        return 0
+    k = 0
+    counter = [0]
+
+    def bound_names(fn):
+        out = {p_.lstrip("*") for p_ in _params(fn)}
+        for m_ in _own_nodes(fn):
+            if isinstance(m_, ast.Name) and isinstance(m_.ctx, (ast.Store, ast.Del)):
+                out.add(m_.id)
+        return out
+
+    def expand(call, caller, cls):
+        """-> (helper qn, binding statements, body copy) or None"""
+        name, recv = None, None
+        if isinstance(call.func, ast.Name) and call.func.id in helpers:
+            name = call.func.id
+        elif isinstance(call.func, ast.Attribute) and isinstance(call.func.value, ast.Name) and call.func.value.id in ("self", "cls") and cls \
+                and f"{cls}.{call.func.attr}" in helpers:
+            name, recv = f"{cls}.{call.func.attr}", call.func.value
+        if name is None:
+            return None
+        fn, body, rets = helpers[name]
+        if fn is caller:
+            return None
+        params = [a.arg for a in fn.args.args]
+        defaults = dict(zip(params[len(params) - len(fn.args.defaults):], fn.args.defaults))
+        binding = {}
+        ps = list(params)
+        if recv is not None:
+            if not ps:
+                return None
+            binding[ps[0]] = recv
+            ps = ps[1:]
+        if any(isinstance(a, ast.Starred) for a in call.args) or any(kw.arg is None for kw in call.keywords) or len(call.args) > len(ps):
+            return None
+        for p_, a in zip(ps, call.args):
+            binding[p_] = a
+        for kw in call.keywords:
+            if kw.arg not in ps or kw.arg in binding:
+                return None
+            binding[kw.arg] = kw.value
+        for p_ in ps:
+            if p_ not in binding:
+                if p_ in defaults:
+                    binding[p_] = defaults[p_]
+                else:
+                    return None
+        caller_names = bound_names(caller) | {m.id for m in ast.walk(caller) if isinstance(m, ast.Name)}
+        helper_bound = bound_names(fn)
+        ren = {}
+
+        def dead_at_call(nm) -> bool:
+            """the caller uses `nm` only as the variable of for-loops that do not contain the call: nothing of it is alive there"""
+            loops = [l for l in _own_nodes(caller) if isinstance(l, ast.For) and any(isinstance(t, ast.Name) and t.id == nm for t in ast.walk(l.target))]
+            if not loops:
+                return False
+            inside = set()
+            for l in loops:
+                for m in ast.walk(l):
+                    inside.add(id(m))
+            if id(call) in inside:
+                return False
+            return all(id(m) in inside for m in ast.walk(caller) if isinstance(m, ast.Name) and m.id == nm)
+        for nm in sorted(helper_bound):
+            same_arg = nm in binding and isinstance(binding[nm], ast.Name) and binding[nm].id == nm
+            if nm in caller_names and not same_arg and not dead_at_call(nm):
+                counter[0] += 1
+                ren[nm] = f"{nm}__h{counter[0]}"
+        new_body = copy.deepcopy(body)
+        holder = ast.Module(body=new_body, type_ignores=[])
+        if ren:
+            for m in ast.walk(holder):
+                if isinstance(m, ast.Name) and m.id in ren:
+                    m.id = ren[m.id]
+        binds = []
+        for p_ in params:
+            tgt = ren.get(p_, p_)
+            a = binding[p_]
+            if isinstance(a, ast.Name) and a.id == tgt:
+                continue
+            binds.append(ast.copy_location(ast.Assign(targets=[ast.Name(id=tgt, ctx=ast.Store())], value=copy.deepcopy(a)), call))
+        return name, binds, holder.body
+
+    for qn, caller in funcs:
+        if qn in helpers:
+            continue
+        cls = qn.split(".")[0] if "." in qn else None
+        changed = True
+        rounds = 0
+        while changed and rounds < 4:
+            changed = False
+            rounds += 1
+            for owner in list(_own_nodes(caller)) + [caller]:
+                fields = ["body", "orelse", "finalbody"]
+                blks = [getattr(owner, f, None) for f in fields]
+                if isinstance(owner, ast.Try):
+                    blks += [h.body for h in owner.handlers]
+                for blk in blks:
+                    if not (isinstance(blk, list) and blk and isinstance(blk[0], ast.stmt)):
+                        continue
+                    for i, st in enumerate(blk):
+                        got = None
+                        if isinstance(st, ast.Return) and isinstance(st.value, ast.Call):
+                            got = expand(st.value, caller, cls)
+                            if got is not None:
+                                name, binds, body = got
+                                fn, _, rets = helpers[name]
+                                if not (body and isinstance(body[-1], (ast.Return, ast.Raise))):
+                                    body = body + [ast.copy_location(ast.Return(value=None), st)]
+                                repl = binds + body
+                        elif isinstance(st, ast.Expr) and isinstance(st.value, ast.Call):
+                            got = expand(st.value, caller, cls)
+                            if got is not None:
+                                name, binds, body = got
+                                fn, _, rets = helpers[name]
+                                trailing = bool(body) and isinstance(body[-1], ast.Return) and body[-1].value is None
+                                inner = [r for r in rets]
+                                if any(r.value is not None for r in inner) or len(inner) > (1 if trailing else 0):
+                                    got = None
+                                else:
+                                    repl = binds + (body[:-1] if trailing else body)
+                                    if not repl:
+                                        repl = [ast.copy_location(ast.Pass(), st)]
+                        elif isinstance(st, ast.Assign) and len(st.targets) == 1 and isinstance(st.value, ast.Call):
+                            got = expand(st.value, caller, cls)
+                            if got is not None:
+                                name, binds, body = got
+                                fn, _, rets = helpers[name]
+                                if len(rets) == 1 and body and isinstance(body[-1], ast.Return) and body[-1].value is not None:
+                                    last = ast.copy_location(ast.Assign(targets=st.targets, value=body[-1].value), st)
+                                    repl = binds + body[:-1] + [last]
+                                else:
+                                    got = None
+                        if got is not None:
+                            for r_ in repl:
+                                ast.fix_missing_locations(ast.copy_location(r_, st) if not hasattr(r_, "lineno") else r_)
+                            blk[i:i + 1] = repl
+                            k += 1
+                            changed = True
+                            break
+                    if changed:
+                        break
+                if changed:
+                    break
     return k
 
 
@@ -885,12 +1135,25 @@ def _pure(e) -> bool:
     if isinstance(e, ast.Tuple):
         return all(_pure(x) for x in e.elts)
     if isinstance(e, ast.Call):
-        return isinstance(e.func, ast.Name) and e.func.id in _PURE_BUILTINS and all(_pure(a) for a in e.args) and all(k.arg is not None and _pure(k.value) for k in e.keywords)
+        return isinstance(e.func, ast.Name) and e.func.id in _PURE_BUILTINS and all(_pure(a) or (isinstance(a, ast.GeneratorExp) and _pure_comp(a)) for a in e.args) \
+            and all(k.arg is not None and _pure(k.value) for k in e.keywords)
+    if isinstance(e, (ast.ListComp, ast.SetComp, ast.DictComp)):
+        return _pure_comp(e)
     if isinstance(e, ast.JoinedStr):
         return all(_pure(v) for v in e.values)
     if isinstance(e, ast.FormattedValue):
         return _pure(e.value) and (e.format_spec is None or _pure(e.format_spec))
     return False
+
+
+def _pure_comp(e) -> bool:
+    """a comprehension all of whose parts are pure (a bare generator expression is only pure as the direct argument of a consuming builtin: it can be read once)"""
+    for g in e.generators:
+        if g.is_async or not _pure(g.iter) or not all(_pure(c) for c in g.ifs):
+            return False
+    if isinstance(e, ast.DictComp):
+        return _pure(e.key) and _pure(e.value)
+    return _pure(e.elt)
 
 
 def _pos(n):
@@ -984,16 +1247,25 @@ def _inline_pure_temps(fn, keep: Set[str]) -> int:
                     uses = [m for r in rest for m in ast.walk(r) if isinstance(m, ast.Name) and m.id == x and isinstance(m.ctx, ast.Load)]
                     if not uses or len(uses) != loads.get(x, 0):
                         continue
-                    bases = {m.id for m in ast.walk(st.value) if isinstance(m, ast.Name)}
+                    own_bound = {t.id for m in ast.walk(st.value) if isinstance(m, (ast.ListComp, ast.SetComp, ast.DictComp, ast.GeneratorExp))
+                                 for g in m.generators for t in ast.walk(g.target) if isinstance(t, ast.Name)}
+                    bases = {m.id for m in ast.walk(st.value) if isinstance(m, ast.Name)} - own_bound
                     attrs = {"." + m.attr for m in ast.walk(st.value) if isinstance(m, ast.Attribute)}
-                    if bases & comp_bound:
+                    other_bound = set()
+                    for m in _own_nodes(fn):
+                        if isinstance(m, (ast.ListComp, ast.SetComp, ast.DictComp, ast.GeneratorExp)) and not any(m is z for z in ast.walk(st.value)):
+                            for g in m.generators:
+                                other_bound.update(t.id for t in ast.walk(g.target) if isinstance(t, ast.Name))
+                        if isinstance(m, ast.Lambda):
+                            other_bound.update(a.arg for a in ast.walk(m.args) if isinstance(a, ast.arg))
+                    if bases & other_bound or own_bound & (set(stores) - own_bound):
                         continue
                     here = _pos(st)
                     if any(_pos(sn) >= here for b in bases for sn in stores.get(b, [])):
                         continue  # something the expression reads is re-bound after the assignment
                     if any(pos >= here and (what in bases or what in attrs) for pos, what in mutated):
                         continue
-                    has_call = any(isinstance(m, ast.Call) for m in ast.walk(st.value))
+                    has_call = any(isinstance(m, (ast.Call, ast.ListComp, ast.SetComp, ast.DictComp)) for m in ast.walk(st.value))
                     if has_call:
                         # a freshly built object must only be read as a value: no attribute / item access on the temporary
                         bad = False
@@ -1446,6 +1718,8 @@ class Normalizer:
         self.restyled = 0
         self.helpers_inlined = 0
         self.constants_folded = 0
+        self.positionalised = 0
+        self.helper_bodies_inlined = 0
         self.param_renames: Dict[str, Dict[str, str]] = {}  # function simple name -> {current kw: reference kw}
 
     def module(self, stem: str, tree: ast.Module):
@@ -1459,6 +1733,8 @@ class Normalizer:
                 self.helpers_inlined += n_
                 if not n_:
                     break
+            self.helper_bodies_inlined += _inline_new_helper_statements(tree, stem, self.ref)
+            self.helpers_inlined += _inline_new_helper_calls(tree, stem, self.ref)
         funcs = functions(tree)
         for qn, fn in funcs:
             self.annotated += _plain_annotated_assignments(fn)
@@ -1532,6 +1808,11 @@ class Normalizer:
         if mapping:
             _rename_in(fn, mapping)
             self.renamed += [f"{stem}.{qn}: {c} -> {r}" for c, r in mapping.items()]
+
+    def positionalise(self, trees: Dict[str, ast.Module]):
+        rk = self.ref.get("<calls>")
+        if rk is not None:
+            self.positionalised = _positionalise(trees, rk.get("keywords", {}))
 
     def fix_keywords(self, trees: Dict[str, ast.Module]):
         if not self.param_renames:
